@@ -36,6 +36,8 @@ pub enum Line {
     Include(Vec<IncRef>),
     /// fault: a malformed line (unterminated quote / bad escape)
     Malformed(u8),
+    /// n physical lines of multi-byte text (a file of 64 KiB and more; pad shifts every character's byte offset)
+    Bulk { n: usize, pad: usize },
 }
 
 #[derive(Serialize, Deserialize, Clone, Debug, PartialEq)]
@@ -70,6 +72,11 @@ pub struct Case {
     /// as it is on disk) and the tree is parsed again in the same process
     #[serde(default)]
     pub edit_nested: bool,
+    /// `run/lnk` is a symbolic link to the directory `run/a/b`, and absolute include arguments that name a file in
+    /// that directory are spelled through the link: relative includes of such a file (`../x.ds`) climb out of the
+    /// real directory, as the kernel resolves them, not out of the link
+    #[serde(default)]
+    pub link_abs: bool,
 }
 
 const ROOT: &str = "run";
@@ -118,12 +125,16 @@ fn render_line(case: &Case, file: usize, l: &Line, base: &Path) -> Vec<String> {
             let mut s = "!include_files".to_string();
             for r in refs {
                 let target = &case.files[r.file].path;
-                let arg = if r.absolute { base.join(target).to_string_lossy().to_string() } else { relative_from(&dir_of(&case.files[file].path), target) };
+                let via_link = r.absolute && case.link_abs && case.fault.is_none() && target.starts_with("run/a/b/") && !target["run/a/b/".len()..].contains('/');
+                let arg = if via_link {
+                    base.join(target.replacen("run/a/b/", "run/lnk/", 1)).to_string_lossy().to_string()
+                } else if r.absolute { base.join(target).to_string_lossy().to_string() } else { relative_from(&dir_of(&case.files[file].path), target) };
                 s.push(' ');
                 s.push_str(&render_arg(&arg));
             }
             vec![s]
         }
+        Line::Bulk { n, pad } => (0..*n).map(|i| format!("emit b{} {}{}", i, "x".repeat(*pad), "\u{e9}\u{6f22}\u{1f600}\u{11b}".repeat(6))).collect(),
         Line::Malformed(k) => vec![match k % 3 {
             0 => "emit \"unterminated".to_string(),
             1 => "emit bad\\qescape".to_string(),
@@ -218,6 +229,7 @@ fn first_malformed(case: &Case, file: usize, depth: usize) -> Option<(usize, usi
                 continue;
             }
             Line::Fail(_) => line_no += 4,
+            Line::Bulk { n, .. } => line_no += *n,
             _ => line_no += 1,
         }
     }
@@ -244,6 +256,7 @@ fn first_problem(case: &Case, file: usize, depth: usize, fault_file: Option<usiz
                 }
             }
             Line::Fail(_) => line_no += 4,
+            Line::Bulk { n, .. } => line_no += *n,
             _ => line_no += 1,
         }
     }
@@ -305,6 +318,11 @@ fn run_case(case: &Case, env: &WorkerEnv) -> Verdict {
             _ => {
                 let _ = std::fs::write(p, file_text(case, i, &base));
             }
+        }
+    }
+    if case.link_abs && case.fault.is_none() && Path::new("run/a/b").is_dir() {
+        if std::os::unix::fs::symlink("a/b", "run/lnk").is_ok() {
+            sim::with_core(|c| c.probe("include-through-a-directory-link"));
         }
     }
     let canon_files: Vec<String> = case.files.iter().map(|f| canon(&f.path)).collect();
@@ -389,6 +407,8 @@ fn run_case(case: &Case, env: &WorkerEnv) -> Verdict {
 
     // ---- clause 2: same behaviour as the pasted text
     gen::install_world(&gen::Program { fns: vec![], arrays: vec![], main: vec![], cnd: vec![], fail_leaf: vec![], forever: false, crlf: false }, None);
+    // (a tree with a bulk file included many times runs tens of thousands of instructions, twice)
+    sim::with_core(|c| c.budget = 5_000_000);
     sim::with_core(|c| c.note("--- run_script_file"));
     let r1 = runner::run_script_file(&root_arg, new_context(), Some(new_env()));
     let log1 = sim::with_core(|c| c.log.clone());
@@ -408,6 +428,7 @@ fn run_case(case: &Case, env: &WorkerEnv) -> Verdict {
                     fail_positions.insert(m.clone(), (fi, ln + 1));
                     ln += 4;
                 }
+                Line::Bulk { n, .. } => ln += *n,
                 _ => ln += 1,
             }
         }
@@ -590,8 +611,14 @@ fn gen_case(rng: &mut Rng) -> Case {
         }
         _ => None,
     };
+    // one tree in forty carries a file of 80-200 KiB
+    if rng.chance(1, 40) {
+        let f = rng.usize(n_files);
+        let pos = rng.usize(files[f].lines.len() + 1);
+        files[f].lines.insert(pos, Line::Bulk { n: 1000 + rng.usize(1500), pad: rng.usize(5) });
+    }
     let root_absolute = rng.chance(1, 4);
-    Case { entropy: rng.next_u64(), files, root_absolute, fault, root_bare: !root_absolute && rng.chance(1, 5), edit_nested: rng.chance(1, 3) }
+    Case { entropy: rng.next_u64(), files, root_absolute, fault, root_bare: !root_absolute && rng.chance(1, 5), edit_nested: rng.chance(1, 3), link_abs: rng.chance(1, 3) }
 }
 
 /// is file k reachable from the root through include directives?
